@@ -13,19 +13,19 @@ NEW = [
      "what": "converse of C41-F6a-c: a certificate in one of those tolerated non-canonical encodings whose CA signature covers exactly the received bytes parses but is rejected ('certificate signature does not verify') because the signature is checked over the re-encoding. With fixes/C41-signed-bytes.diff such byte strings are rejected by ParsePublicKey instead (they are then not certificates for the package)."},
     {"property": "C41", "id": "C41-R1", "status": "open", "signature": "roundtrip:ssh-keygen-explicit-empty-option-value",
      "what": "a certificate issued by ssh-keygen -s with an option or extension given an explicitly empty value (-O extension:name= or -O critical:name=) carries the data field 00 00 00 04 00 00 00 00; ParsePublicKey accepts it, Marshal() re-encodes the option with an empty data field (4 bytes shorter), so the certificate does not round-trip byte-for-byte and CheckCert rejects its valid CA signature (OpenSSH accepts the certificate). Permissions' map[string]string cannot tell the two encodings apart, so no minimal repair is proposed; with fixes/C41-signed-bytes.diff the certificate is rejected at parse time with a clear error instead."},
-    {"property": "C41", "id": "C41-T1", "status": "open", "signature": "time-window:validbefore-in-[2^63,2^64-2]-rejected",
+    {"property": "C41", "id": "C41-T1", "status": "fixed", "signature": "time-window:validbefore-in-[2^63,2^64-2]-rejected",
      "what": "CheckCert casts ValidBefore to int64 and rejects a negative result as expired: a certificate with ValidBefore in [2^63, 2^64-2] (ssh-keygen -V always:0x8000000000000000 issues one; OpenSSH compares as uint64 and accepts it) is rejected although ValidAfter <= now < ValidBefore. Fail-closed, low severity. Fix: fixes/C41-validbefore-uint64.diff (compare the clock as uint64 after rejecting negative clock values, as OpenSSH does)"},
-    {"property": "C40", "id": "C40-M1", "status": "open", "signature": "multialgo:Sign-uses-algorithm-outside-list",
+    {"property": "C40", "id": "C40-M1", "status": "fixed", "signature": "multialgo:Sign-uses-algorithm-outside-list",
      "what": "multiAlgorithmSigner (returned by NewSignerWithAlgorithms, and by NewCertSigner for such signers) checks its algorithm list only in SignWithAlgorithm; the plain Sign method is the promoted method of the embedded signer, so Sign on an RSA signer restricted to [rsa-sha2-512] (or [rsa-sha2-256 rsa-sha2-512]) returns an ssh-rsa (SHA-1) signature although SignWithAlgorithm with the empty or ssh-rsa algorithm is refused. Repro: s, _ := NewSignerWithAlgorithms(rsaSigner.(AlgorithmSigner), []string{KeyAlgoRSASHA512}); sig, err := s.Sign(rand.Reader, data) -> err == nil, sig.Format == \"ssh-rsa\". The package itself always calls SignWithAlgorithm on such signers, so only direct callers of Sign are affected. Fix: fixes/C40-multialgo-sign.diff (Sign routed through SignWithAlgorithm with the key format's algorithm)"},
     {"property": "C38", "id": "C38-F1", "status": "open", "signature": "fingerprint:certificate-differs-from-ssh-keygen",
      "what": "FingerprintSHA256 / FingerprintLegacyMD5 of a *Certificate hash the whole certificate blob (cert.Marshal()), whereas ssh-keygen -l -E sha256|md5 -f cert.pub prints the fingerprint of the certified public key (the same value as for the plain .pub file, labelled ED25519-CERT etc.), so the package's fingerprint of every certificate differs from ssh-keygen's (all 8 certificate types). Repro: SignCert a certificate, write MarshalAuthorizedKey(cert) to a file, compare FingerprintSHA256(cert) with ssh-keygen -l -f file. A behaviour change for callers that log or pin certificate-blob fingerprints, so compatibility must be weighed. Fix: fixes/C38-cert-fingerprint.diff (fingerprint cert.Key for certificates)"},
-    {"property": "C39", "id": "C39-K1", "status": "open", "signature": "accepted-inconsistent:outerPubOther",
+    {"property": "C39", "id": "C39-K1", "status": "fixed", "signature": "accepted-inconsistent:outerPubOther",
      "what": "parseOpenSSHPrivateKey never compares the public key stored in the envelope of an OpenSSH private key file with the private key: a file whose envelope carries another key's public key (same type) is accepted by ParseRawPrivateKey(WithPassphrase) for RSA, ECDSA and Ed25519 keys, so the returned key's public key differs from the one stored in the file (OpenSSH rejects such a file: sshkey_parse_private2 checks sshkey_equal_public). Repro: MarshalPrivateKey two keys, copy the PubKey field of one envelope into the other, ParseRawPrivateKey -> nil error. Fix: fixes/C39-private-key-consistency.diff"},
-    {"property": "C39", "id": "C39-K2", "status": "open", "signature": "accepted-inconsistent:outerPubGarbage",
+    {"property": "C39", "id": "C39-K2", "status": "fixed", "signature": "accepted-inconsistent:outerPubGarbage",
      "what": "as C39-K1 with an unparsable public key blob in the envelope: the envelope's public key is only looked at to fill PassphraseMissingError, an unencrypted (or correctly decrypted) file with garbage there is accepted. Fix: fixes/C39-private-key-consistency.diff"},
-    {"property": "C39", "id": "C39-K3", "status": "open", "signature": "accepted-inconsistent:seedMismatch",
+    {"property": "C39", "id": "C39-K3", "status": "fixed", "signature": "accepted-inconsistent:seedMismatch",
      "what": "for ssh-ed25519 private keys parseOpenSSHPrivateKey returns the 64 stored private bytes without checking that the public half (bytes 32..63) belongs to the seed (bytes 0..31): a file whose seed was replaced is accepted and signatures made with the returned key do not verify under its own public key. Repro: replace Priv[:32] of an Ed25519 key file's private section with another seed, ParseRawPrivateKey -> nil error; NewSignerFromKey(k).Sign then PublicKey().Verify fails. Fix: fixes/C39-private-key-consistency.diff"},
-    {"property": "C39", "id": "C39-K4", "status": "open", "signature": "accepted-inconsistent:privPubHalfOther",
+    {"property": "C39", "id": "C39-K4", "status": "fixed", "signature": "accepted-inconsistent:privPubHalfOther",
      "what": "as C39-K3 with the public half of the Ed25519 private bytes replaced by another key's public key (the separate public field and the envelope left intact): accepted; signatures do not verify and the returned public key differs from the stored one. Fix: fixes/C39-private-key-consistency.diff"},
     {"property": "C39", "id": "C39-D1", "status": "open", "signature": "ssh-keygen-key:dsa-openssh-format-unhandled",
      "what": "ssh-keygen -t dsa (OpenSSH 9.2) writes the private key in OpenSSH format (keytype ssh-dss); parseOpenSSHPrivateKey has no case for it and returns 'ssh: unhandled key type' (encrypted files: after successful decryption), although the package parses DSA keys in the PEM 'DSA PRIVATE KEY' form. The property asks for all key types ssh-keygen writes. No patch proposed: DSA is deprecated in the package and removed from current OpenSSH; recorded as an open deviation."},
